@@ -11,6 +11,8 @@ sys.path.insert(0, os.environ.get("VP_REPO", "/repo"))
 
 def main():
     kind, W, N, wd = sys.argv[1], int(sys.argv[2]), int(sys.argv[3]), sys.argv[4]
+    if kind == "exit-with-live-worker":
+        return exit_live(wd)
     import gaftools.cli.realign as R
 
     gfa = os.path.join(wd, "rp.gfa")
@@ -71,6 +73,51 @@ def main():
     else:
         bad = status != "ok" or names != want
     res.update(status=status, written=names, reproduced=bool(bad))
+    print("REALPROC " + json.dumps(res))
+
+
+def exit_live(wd):
+    """2 workers, real batch size: worker 0 kills itself before delivering anything, worker 1 starts late and has a few
+    hundred KiB of results.  The command must terminate (with a non-zero status); a hang is the violation."""
+    import subprocess
+
+    os.environ.pop("GAFTOOLS_VERIF_BATCH_SIZE", None)
+    gfa = os.path.join(wd, "big.gfa")
+    seq = "ACGTTGCA" * 8
+    open(gfa, "w").write("S\ta\t%s\n" % seq)
+    fa = os.path.join(wd, "big.fa")
+    gaf = os.path.join(wd, "big.gaf")
+    n = 2000
+    with open(fa, "w") as f1, open(gaf, "w") as f2:
+        for i in range(n):
+            f1.write(">r%d\n%s\n" % (i, seq))
+            f2.write("r%d\t%d\t0\t%d\t+\t>a\t%d\t0\t%d\t%d\t%d\t60\tzz:Z:%s\tcg:Z:%d=\n" % (i, len(seq), len(seq), len(seq), len(seq), len(seq), len(seq), "x" * 200, len(seq)))
+    import pysam
+
+    pysam.faidx(fa)
+    child = os.path.join(wd, "child.py")
+    open(child, "w").write("""
+import os, sys, time, signal
+sys.path.insert(0, %r)
+import gaftools.cli.realign as R
+orig = R.wfa_alignment
+def target(batch, qu):
+    if batch[0][3] == 0:
+        os.kill(os.getpid(), signal.SIGKILL)
+    time.sleep(2)
+    orig(batch, qu)
+R.wfa_alignment = target
+R.run_realign(%r, %r, %r, output=%r, cores=2)
+""" % (os.environ.get("VP_REPO", "/repo"), gaf, gfa, fa, os.path.join(wd, "big.out")))
+    p = subprocess.Popen([sys.executable, child], start_new_session=True, stdout=subprocess.DEVNULL, stderr=subprocess.DEVNULL)
+    try:
+        rc = p.wait(timeout=40)
+        res = {"attempted": True, "kind": "exit-with-live-worker", "status": "exit:%s" % rc, "reproduced": rc == 0}
+    except subprocess.TimeoutExpired:
+        import signal
+
+        os.killpg(p.pid, signal.SIGKILL)
+        res = {"attempted": True, "kind": "exit-with-live-worker", "status": "no termination within 40 s", "reproduced": True}
     print("REALPROC " + json.dumps(res))
 
 
